@@ -394,7 +394,8 @@ impl IntColBuffer {
         self.max = cmp::max(elem, self.max);
         if elem > self.last {
             self.increasing += 1;
-        } else if elem.checked_sub(self.last).is_none() {
+        }
+        if !self.data.is_empty() && elem.checked_sub(self.last).is_none() {
             self.allow_delta_encode = false;
         };
         self.last = elem;
